@@ -195,6 +195,7 @@ def run(prog: Program, chk: Check) -> None:
     chk.call(k7, prog, chk)
     chk.call(k8, prog, chk)
     chk.call(k9, prog, chk)
+    chk.call(k10, prog, chk)
 
 
 def k4(prog: Program, chk: Check) -> None:
@@ -632,3 +633,106 @@ def k9(prog: Program, chk: Check) -> None:
                     "largest singular value)", x)
     if n < 1:
         raise AnalysisError("K9: no comparison of singular values with a threshold found")
+
+
+SPECTRAL_POSITIVE = """
+import numpy as np
+from scipy.linalg import eigh
+def f_wrong(h, t):
+    energies, states = eigh(h)
+    return (states * np.exp(-1j * energies * t)) @ states.T
+def f_right(h, t):
+    w, v = np.linalg.eigh(h)
+    return (v * np.exp(-1j * w * t)) @ v.conj().T
+"""
+
+
+def spectral_reconstructions(units):
+    """[(unit, node, eigenvector name, ok)] for every use of the bare transpose of the
+    eigenvector matrix of a Hermitian / general eigensolver (`w, v = eigh(H)` ... `v.T`):
+    a function of H is V f(E) V^dagger - with the plain transpose it is right only for real
+    symmetric H (real eigenvectors)."""
+    from oqv.cfg import CFG as _CFG
+    from oqv.dataflow import DefUse as _DU
+    from rules.c05 import adjoint_base
+    out = []
+    for u in units:
+        if isinstance(u.node, ast.Lambda):
+            continue
+        if not any(isinstance(c, ast.Call) and (dotted(c.func) or "").split(".")[-1] in ("eigh", "eig")
+                   for c in walk_local(u.node)):
+            continue
+        du = _DU(u, _CFG(u.node, exc_edges=False))
+        vec_names = {d.name for d in du.defs if isinstance(d.value, ast.Call)
+                     and (dotted(d.value.func) or "").split(".")[-1] in ("eigh", "eig")
+                     and any(s_ == ("idx", 1) for s_ in d.sel)}
+        if not vec_names:
+            continue
+        parents = {}
+        for p_ in ast.walk(u.node):
+            for c_ in ast.iter_child_nodes(p_):
+                parents[id(c_)] = p_
+        for x in walk_local(u.node):
+            if not (isinstance(x, ast.Attribute) and x.attr == "T" and isinstance(x.value, ast.Name)
+                    and x.value.id in vec_names):
+                continue
+            # climb while the expression is still a conjugation / transposition chain
+            top = x
+            while True:
+                par = parents.get(id(top))
+                if isinstance(par, ast.Attribute) and par.attr in ("conj", "conjugate", "T", "H"):
+                    top = par
+                elif isinstance(par, ast.Call) and par.func is top:
+                    top = par
+                elif isinstance(par, ast.Call) and (dotted(par.func) or "").split(".")[-1] in \
+                        ("conj", "conjugate") and par.args and par.args[0] is top:
+                    top = par
+                else:
+                    break
+            out.append((u, x, x.value.id, adjoint_base(top) is not None))
+        # v.conj().T etc. are fine and need no entry; count them for the evidence
+        for x in walk_local(u.node):
+            if isinstance(x, ast.Attribute) and x.attr == "T" and not isinstance(x.value, ast.Name):
+                base = adjoint_base(x)
+                if isinstance(base, ast.Name) and base.id in vec_names:
+                    out.append((u, x, base.id, True))
+    return out
+
+
+def k10(prog: Program, chk: Check) -> None:
+    chk.rule("K10", "a function of a Hermitian matrix that is rebuilt from its spectrum uses the "
+             "adjoint of the eigenvector matrix: wherever `w, v = eigh(H)` is followed by a "
+             "transpose of v, it is the conjugate transpose (V f(E) V^dagger) - the plain `v.T` "
+             "gives the right matrix only for real symmetric H, so a Hamiltonian with complex "
+             "entries (a sigma_y term) gets a half-step propagator that is not exp(-H dtau/2) and "
+             "the Gibbs state is wrong even at zero coupling. Expected count of bare transposes "
+             "is zero: a built-in example with one wrong and one right reconstruction is judged "
+             "on every run", floor=1)
+    import types
+    tree = ast.parse(SPECTRAL_POSITIVE)
+    fake = []
+    for f in tree.body:
+        if isinstance(f, ast.FunctionDef):
+            fu = types.SimpleNamespace(node=f, qual=f"positive:{f.name}", params=[a.arg for a in f.args.args],
+                                       body=f.body, module=types.SimpleNamespace(short="positive"),
+                                       parent=None, cls=None, name=f.name)
+            fake.append(fu)
+    try:
+        got = sorted((u.qual, ok) for (u, _, _, ok) in spectral_reconstructions(fake))
+    except Exception as e:       # the fake units lack something the analysis needs
+        raise AnalysisError(f"K10: built-in example could not be analysed ({type(e).__name__}: {e})")
+    if got != [("positive:f_right", True), ("positive:f_wrong", False)]:
+        raise AnalysisError(f"K10: the built-in example is judged {got} - the rule no longer "
+                            f"recognises the idiom")
+    units = [u for u in prog.units.values() if u.module.short in ("system", "bath", "tempo", "operators",
+                                                                  "backends.tempo_backend")]
+    n = 0
+    for (u, node, name, ok) in spectral_reconstructions(units):
+        n += 1
+        chk.saw(u)
+        chk.add("K10", u, f"transpose of the eigenvector matrix `{name}`", ok,
+                "conjugate transpose" if ok else
+                f"`{name}.T` without conjugation: the reconstruction V f(E) V^T equals f(H) only "
+                f"when the eigenvectors are real", node)
+    chk.add("K10", prog.module("system"), f"{n} transposes of eigenvector matrices in the system / "
+            f"bath / tempo modules; built-in example judged as expected", True, "")
